@@ -162,7 +162,7 @@ def native_build(q, outdir, tag):
     for (rc, o, e, _), c in zip(rs, cmds):
         if rc != 0:
             return None, 'native compile failed: %s\n%s' % (' '.join(c[-3:]), e[-1500:])
-    rc, o, e, _ = sh(['gcc'] + fl + objs + ['-o', exe, '-lm', '-lpthread', '-Wl,--unresolved-symbols=ignore-all'], timeout=300)
+    rc, o, e, _ = sh(['gcc'] + fl + objs + ['-o', exe, '-lm', '-lpthread', '-no-pie', '-Wl,--unresolved-symbols=ignore-all'], timeout=300)
     for ob in objs:
         if os.path.exists(ob):
             os.unlink(ob)
@@ -202,6 +202,8 @@ def native_run(exe, q, lines, outdir, tag, random_seed=None):
         return 'infeasible', out.strip()[-200:], out
     if rc == 4:
         return 'abort', out.strip()[-200:], out
+    if rc != 0:
+        return 'error', 'native run exit code %s: %s' % (rc, out.strip()[-200:]), out
     return 'ok', '', out
 
 
